@@ -248,8 +248,9 @@ fn main() {
                     let chunks: Vec<Vec<u8>> = ch.iter().map(|c| unhex(c)).collect();
                     feed_with(&svc, &chunks, false)
                 }
-                "listen" => {
-                    // listen <delay_us> <svc..> | chunks
+                "listen" | "listenu" => {
+                    // listen <delay_us> <svc..> | chunks     (listenu: the upgraded handler returns after every unit)
+                    vharness::UPGRADED_UNIT.store(op == "listenu", std::sync::atomic::Ordering::SeqCst);
                     let delay: u64 = rest[0].parse().unwrap();
                     let (st, ch) = split_bar(&rest[1..]);
                     let key = st.join(" ");
